@@ -78,9 +78,16 @@ def items(tier):
             out.append((sp, {"rule": "TSLACK", "max_time": 10}))
     for sp in F.fac_specs(tier):
         out.append((sp, {"rule": "TSLACK", "max_time": F.seq_bound(sp) + 8}))
+    # workers built without the skill keywords and filled in place afterwards: the one without a machine licence must not end up with his colleague's
+    for order in ((0, 1), (1, 0)):
+        ws = [{"name": "W0", "skills": {"T0": 1.0}, "fskills": {"F0": 1.0, "F1": 1.0}, "skills_inplace": True, "cost": 1.0}, {"name": "W1", "skills": {"T0": 1.0}, "skills_inplace": True, "cost": 1.0}]
+        sp = {"tasks": [{"name": "T0", "work": 4.0, "nf": True}], "links": [], "components": [{"name": "C0", "tasks": [0]}],
+              "workplaces": [{"name": "WP0", "cap": 1.0, "targets": [0], "facilities": [{"name": "F0", "skills": {"T0": 1.0}}, {"name": "F1", "skills": {"T0": 1.0}}]}],
+              "teams": [{"name": "TM0", "targets": [0], "workers": [ws[i] for i in order]}]}
+        out.append((sp, {"rule": "TSLACK", "max_time": 12}))
     for sp in F.same_name_task_specs():
         out.append((sp, {"rule": "TSLACK", "max_time": 14}))
-    for sp in F.sectioned_workplace_specs() + F.id_namespace_specs() + F.stuck_component_specs() + F.named_machine_specs() + F.half_wired_workplace_specs():
+    for sp in F.sectioned_workplace_specs() + F.id_namespace_specs() + F.stuck_component_specs() + F.named_machine_specs() + F.half_wired_workplace_specs() + F.stationed_worker_specs():
         for rule in ("TSLACK", "SPT"):
             out.append((sp, {"rule": rule, "max_time": F.seq_bound(sp) + 10}))
     if tier == "thorough":
@@ -108,6 +115,8 @@ def run(tier, seed):
     lit2 = [(sp, {"rule": "TSLACK", "max_time": 24, "absence": list(s)}) for sp in F.absence_probe_models() for s in (seqs if tier == "thorough" else [q for q in seqs if len(q) != 2 or q[0] >= q[1]])]
     col.merge(stepcheck.explore(lit2, MONS, 0, 0, seed=seed))
     col.merge(stepcheck.explore(stepcheck.edited_items(), MONS, 0, 0, seed=seed))  # runs after an earlier run and an in-place model edit
+    col.merge(stepcheck.explore(stepcheck.resumed_edit_items(("byhand-check-then-absent-1",), ks=(1,)) + stepcheck.resumed_edit_items(("byhand-check-then-absent-2",), ks=(2,))
+                                + stepcheck.resumed_edit_items(("move-worker", "add-component"), ks=(1, 2)), MONS, 0, 0, seed=seed))  # edits at a stop, the availability helper called by hand before them
     col.merge(stepcheck.explore(F.scale_items(("TSLACK", "LPT", "SPT")), MONS, 0, 0, seed=seed))  # medium-sized models (10-14 tasks / workers / machines), long absence lists
     col.merge(stepcheck.explore(F.extra_items(("TSLACK", "LPT", "SPT"), calendars=True), MONS, 0, 0, seed=seed))  # other ways of building the object graph; continuations under a revised calendar
     meta = {
